@@ -344,6 +344,20 @@ Theorem C04_livermore_relax_thresholds_and_deposit :
 Proof. exact livermore_relax_thresholds_and_deposit. Qed.
 Print Assumptions C04_livermore_relax_thresholds_and_deposit.
 
+(** Livermore PE, E < thresh_lo (tabulated subshell cross sections as inputs): the skip
+    test and the fall-through are concrete: a selected shell is accessible, so the
+    photoelectron's kinetic energy E - E_bind is >= 0; if every binding energy
+    exceeds E nothing is emitted and E is deposited *)
+Theorem C04_livermore_lo_valid : forall (e_inc cutoff : R) shells edir,
+  0 <= e_inc -> Forall (fun s => 0 <= fst s) shells ->
+  let r := livermore_lo e_inc cutoff shells edir in
+  i_action r = Absorbed /\ 0 <= i_deposit r <= e_inc /\
+  Forall (fun x => 0 <= s_energy x) (i_secs r) /\
+  e_inc = sec_energy_sum (i_secs r) + i_deposit r /\
+  (Forall (fun s => e_inc < fst s) shells -> i_secs r = [] /\ i_deposit r = e_inc).
+Proof. exact livermore_lo_valid. Qed.
+Print Assumptions C04_livermore_lo_valid.
+
 (** ** non-vacuity: the hypotheses are satisfiable by concrete states *)
 Example C04_example_kn_ok : kn_ok (1 / 2) (KN 2 1 (V3 0 0 1)).
 Proof. unfold kn_ok, unitv. rewrite dot_R. cbn. repeat split; try lra; field. Qed.
